@@ -1,4 +1,6 @@
 use super::{error, Arguments, CommandName};
+#[cfg(lace_verif)]
+use crate::verif_println as println;
 
 macro_rules! name_list {
     [
@@ -139,6 +141,8 @@ impl Arguments<'_> {
                 // User clearly wants return to bash
                 if command_name == "sudo" {
                     println!("Goodbye");
+                    #[cfg(lace_verif)]
+                    crate::verif::exit_hook(0);
                     std::process::exit(0);
                 }
 
